@@ -12,9 +12,18 @@
     shipped grammar (regenerated from JavaParser.g4); so by `site_never_nil` none of them can
     dereference nil on any tree an error-free parse produces — any size, any nesting;
   * `no_listener_file_missing` — all eight files were found.
-  Not decided statically (counted in `Gen.NavSites.unanalysed`, covered by the grammar-wide search on the
-  real code): GetChild(i) / GetParent() chains, unchecked type assertions on those, constant indexes and
-  slice expressions on texts, helper functions without a context parameter.
+  * `all_path_sites_safe` / `path_site_never_panics` — the navigation CHAINS: every dereference, type
+    assertion and GetChild(i) on a context value that the extractor can follow from a context of known
+    rule through GetParent() / GetChild(i) / accessors / assertions / variables / helper calls (several
+    hundred step lists, regenerated from the Go source with the tests that dominate each use) is safe
+    under the abstract interpreter `NavTree.runA` over the shipped grammar; `NavTree.run_sound` makes
+    that a statement about EVERY well-formed parse tree and EVERY node of the chain's rule in it: no nil
+    dereference, no failed assertion, and no `GetChild(i)` with i equal to the number of children (the
+    ANTLR Go runtime indexes out of range there).
+  Not decided statically (counted in `Gen.NavSites.unanalysed` / `pathUnanalysed`, covered by the
+  grammar-wide search on the real code): GetChild with a variable index outside inlined helpers, values
+  that are assigned in loops or branches, constant indexes and slice expressions on texts and lists,
+  function literals, helper arguments the walk cannot follow.
 -/
 import CocaVerif.Model.Nav
 
@@ -83,5 +92,44 @@ theorem site_never_nil (s : Gen.NavSites.Site) (hs : s ∈ Gen.NavSites.sites) (
   simp only [siteSafe, hg, Bool.false_or, Bool.and_eq_true] at h0
   rw [← hr] at h0
   exact accessor_present_given _ n s.sym s.given hc h0.1 h0.2 hgiven
+
+/-- every followed navigation chain of the listeners is safe under the abstract run over the shipped grammar -/
+theorem all_path_sites_safe :
+    unsafePaths Gen.JavaGrammar.rhs Gen.JavaGrammar.ruleNames Gen.NavSites.pathSites = [] := by decide +kernel
+
+/-- so: on every well-formed parse tree of the shipped grammar (any size, any nesting) and at every node of the
+    chain's rule in it, executing the chain does not panic — no nil dereference, no failed type assertion, no child
+    index equal to the number of children.  (`skip` = a test in the code did not hold and the chain is not executed.) -/
+theorem path_site_never_panics (s : Gen.NavSites.PathSite) (hs : s ∈ Gen.NavSites.pathSites)
+    (root : NavTree.PT) (hwf : NavTree.WF Gen.JavaGrammar.rhs Gen.JavaGrammar.ruleNames root) (hroot : root.sym = startRule)
+    (p : List Nat) (n : NavTree.PT) (hn : NavTree.sub root p = some n) (hr : n.sym = s.rule) :
+    NavTree.runC root (some p) s.steps ≠ .panic := by
+  have h0 : pathSafe Gen.JavaGrammar.rhs Gen.JavaGrammar.ruleNames s = true := by
+    have hu := all_path_sites_safe
+    by_cases e : pathSafe Gen.JavaGrammar.rhs Gen.JavaGrammar.ruleNames s = true
+    · exact e
+    · have : s ∈ unsafePaths Gen.JavaGrammar.rhs Gen.JavaGrammar.ruleNames Gen.NavSites.pathSites := by
+        simp only [unsafePaths, List.mem_filter]
+        exact ⟨hs, by simpa using e⟩
+      rw [hu] at this; cases this
+  apply NavTree.run_sound Gen.JavaGrammar.rhs Gen.JavaGrammar.ruleNames startRule root hwf hroot s.steps (some p)
+    { syms := [s.rule], mayNil := false } ?_ h0
+  exact ⟨n, hn, by simp [hr], by simp, by simp, trivial⟩
+
+/-- the chain walk is not empty and really contains chains with GetChild / GetParent / assertions (non-vacuity) -/
+example : 200 ≤ Gen.NavSites.pathSites.length := by decide +kernel
+
+/-- regression examples for the abstract run on the shipped grammar: `statement.GetChild(1)` is NOT safe on an arbitrary
+    statement (`statement: block` has one child, index 1 is out of range), it is with a child-count test -/
+example : NavTree.runA Gen.JavaGrammar.rhs Gen.JavaGrammar.ruleNames startRule { syms := ["statement"], mayNil := false } [.child 1] = false := by
+  decide +kernel
+example : NavTree.runA Gen.JavaGrammar.rhs Gen.JavaGrammar.ruleNames startRule { syms := ["statement"], mayNil := false } [.guardCount 3, .child 1, .deref] = true := by
+  decide +kernel
+/-- an unchecked assertion on a blockStatement's first child is not safe; after the reflect test it is -/
+example : NavTree.runA Gen.JavaGrammar.rhs Gen.JavaGrammar.ruleNames startRule { syms := ["blockStatement"], mayNil := false } [.child 0, .assertSym ["statement"]] = false := by
+  decide +kernel
+example : NavTree.runA Gen.JavaGrammar.rhs Gen.JavaGrammar.ruleNames startRule { syms := ["blockStatement"], mayNil := false }
+    [.child 0, .guardSym ["statement"], .assertSym ["statement"], .deref] = true := by
+  decide +kernel
 
 end CocaVerif.Props.C09
